@@ -64,6 +64,13 @@ def cases(tier):
     for a in quad_all[:2]:
         for b, c, d in itertools.product(quad_all, quad_all, quad_all):
             out.append(program([a, b, c, d]))
+    # the lock object was used by an earlier simulation on this thread; the simulation runs while its caller handles an exception
+    base = list(out)
+    for i, p in enumerate(base):
+        if i % 3 == 0:
+            out.append(dict(p, _prior=True))
+        elif i % 3 == 1:
+            out.append(dict(p, _in_handler=True))
     return out
 
 
